@@ -272,7 +272,7 @@ def max_acceleration_period(asig):
 
 def max_fa_period(asig):
     """Calculates the period corresponding to the maximum value in the Fourier amplitude spectrum"""
-    max_index = np.argmax(asig.fa_spectrum)
+    max_index = np.argmax(np.abs(asig.fa_spectrum))
     max_period = 1. / asig.fa_frequencies[max_index]
     return max_period
 
